@@ -60,4 +60,14 @@ try:
 except Exception as e:
     print("C15 crate warm-up failed (the check will rebuild):", e)
 PY
+# warm the live-effects crate of C16
+/opt/veriftools/pyvenv/bin/python3 - <<'PY'
+import sys, os
+sys.path.insert(0, os.path.join(os.getcwd(), "lib"))
+import c16
+try:
+    print(c16.run_histories([[("set", "a", "fr"), ("get", "a")]]))
+except Exception as e:
+    print("C16 crate warm-up failed (the check will rebuild):", e)
+PY
 echo setup done
